@@ -2,6 +2,7 @@ package app
 
 import (
 	"context"
+	"encoding/json"
 	"fmt"
 	"io"
 	"log/slog"
@@ -45,6 +46,21 @@ type channel struct {
 	recSegCh              chan recSegData
 	repsCfg               map[string]RepresentationConfig
 	ignore                bool // Ignore (drop) channel. Don't process any content, just return 200 OK
+	deriveRepData         bool // Derive bitrates and frame rates before the next MPD (start parameters were restored)
+}
+
+// startParamsFile is the file in the channel directory that holds the start parameters of the channel.
+const startParamsFile = "channel_start.json"
+
+// channelStartParams are the parameters fixed when a channel starts. They decide under what sequence numbers
+// and times the segments are stored and listed, so they are kept in the channel directory next to the segments
+// and the MPDs to let a restarted receiver continue with the same numbers.
+type channelStartParams struct {
+	StartedByTrName   string `json:"startedByTrack"`
+	MasterTimescale   uint32 `json:"masterTimescale"`
+	MasterSegDuration uint32 `json:"masterSegDuration"`
+	MasterSeqNrShift  int64  `json:"masterSeqNrShift"`
+	MasterTimeShift   int64  `json:"masterTimeShift"`
 }
 
 type trData struct {
@@ -103,6 +119,7 @@ func newChannel(ctx context.Context, chCfg ChannelConfig, chDir string) *channel
 	for _, repCfg := range chCfg.Reps {
 		ch.repsCfg[repCfg.Name] = repCfg
 	}
+	ch.restoreStartParams()
 	go ch.run(ctx)
 	return &ch
 }
@@ -327,6 +344,12 @@ func (ch *channel) receivedSegData(rsd recSegData) {
 		}
 		isNewest := err == nil && ch.segTimesGen.isNewest(name, rsd.seqNr)
 		if updateMPD {
+			if ch.deriveRepData {
+				// The channel was started with restored parameters. Now all tracks have a segment to derive from.
+				ch.deriveAndSetBitrates()
+				ch.deriveAndSetFrameRates(log)
+				ch.deriveRepData = false
+			}
 			nowMS := time.Now().UnixNano() / 1_000_000
 			err := ch.segTimesGen.generateSegmentTimelineNrMPD(log, ch, nowMS)
 			if err != nil {
@@ -401,6 +424,10 @@ func (ch *channel) receivedSegData(rsd recSegData) {
 					}
 					ch.maxNrBufSegs = ch.timeShiftBufferDepthS*ch.masterTimescale/ch.masterSegDuration + 2
 					ch.mu.Unlock()
+					err = ch.writeStartParams()
+					if err != nil {
+						log.Error("failed to write start parameters", "err", err)
+					}
 					ch.deriveAndSetBitrates()
 					ch.deriveAndSetFrameRates(log)
 					err = ch.updateAndWriteMPD(log)
@@ -420,6 +447,59 @@ func (ch *channel) receivedSegData(rsd recSegData) {
 	if ch.masterTimescale == 0 {
 		return // not ready yet
 	}
+}
+
+// writeStartParams writes the start parameters of the channel to its directory by replacing the previous file.
+func (ch *channel) writeStartParams() error {
+	ch.mu.RLock()
+	params := channelStartParams{
+		StartedByTrName:   ch.startedByTrName,
+		MasterTimescale:   ch.masterTimescale,
+		MasterSegDuration: ch.masterSegDuration,
+		MasterSeqNrShift:  ch.masterSeqNrShift,
+		MasterTimeShift:   ch.masterTimeShift,
+	}
+	ch.mu.RUnlock()
+	data, err := json.MarshalIndent(params, "", "  ")
+	if err != nil {
+		return err
+	}
+	tmpFile := filepath.Join(ch.dir, startParamsFile+".tmp")
+	err = os.WriteFile(tmpFile, data, 0644)
+	if err != nil {
+		return err
+	}
+	return os.Rename(tmpFile, filepath.Join(ch.dir, startParamsFile))
+}
+
+// restoreStartParams looks for the start parameters of a channel that was started before a restart of
+// the receiver. With them, the channel is started from the beginning and goes on storing and listing segments
+// under the same sequence numbers and times as the segments and the published MPD in its directory.
+// Otherwise, segments would be stored under their incoming numbers until the channel has started again, possibly
+// from another track, and replace or pile up next to the segments that the published MPD lists.
+// It must be called before the channel starts to run.
+func (ch *channel) restoreStartParams() {
+	data, err := os.ReadFile(filepath.Join(ch.dir, startParamsFile))
+	if err != nil {
+		return // Not started before
+	}
+	var params channelStartParams
+	err = json.Unmarshal(data, &params)
+	if err != nil || params.MasterSegDuration == 0 || params.MasterTimescale == 0 {
+		slog.Warn("Ignoring bad start parameters", "chName", ch.name, "file", startParamsFile, "err", err)
+		return
+	}
+	ch.startedByTrName = params.StartedByTrName
+	ch.masterTimescale = params.MasterTimescale
+	ch.masterSegDuration = params.MasterSegDuration
+	ch.masterSeqNrShift = params.MasterSeqNrShift
+	ch.masterTimeShift = params.MasterTimeShift
+	ch.maxNrBufSegs = ch.timeShiftBufferDepthS*ch.masterTimescale/ch.masterSegDuration + 2
+	ch.deriveRepData = true
+	windowSize := ch.maxNrBufSegs - 1
+	slog.Info("Starting channel with restored parameters", "chName", ch.name, "startedBy", ch.startedByTrName,
+		"windowSize", windowSize, "seqNrShift", ch.masterSeqNrShift, "timeShift", ch.masterTimeShift)
+	ch.segTimesGen.start(windowSize, ch.isShifted())
 }
 
 // restartIfNewMaster makes a started channel start again, if the first video track has arrived and become
